@@ -150,7 +150,7 @@ func (m *Machine) switchTo(next *task) {
 // schedPoint lets the scheduler pick any runnable task (the current one included).
 func (m *Machine) schedPoint(what string) {
 	s := m.sched
-	if s == nil || len(s.tasks) == 1 {
+	if s == nil || len(s.tasks) == 1 || m.noSched > 0 {
 		return
 	}
 	cur := s.cur
